@@ -106,6 +106,14 @@ def sources(ctx, rend):
         out.append({"id": "deep|neg%d" % d, "src": "x = " + "-" * d + "1"})
     for s in ('"abc', "'abc", "`abc", "/* abc", "x = \"a\nb\"", "1e", "1e+", "0x", "0xg", "1.2.3", "1a", "a = = <-", "a = <", "a = ", "a =", "...", "..", "a.b.", "9223372036854775808", "1e999"):
         out.append({"id": "edge|%s" % s.encode("unicode_escape").decode(), "src": s})
+    # errors the grammar's ACTIONS raise (not the LALR driver): a missing right side, too many targets for a channel receive, a second else --
+    # behind every kind of first target / condition, on the first and on a later line
+    firsts = ["a", "a[0]", "a[0:1]", "a[1:]", "a.b", "<- c", "<-c", "{}", "{\"k\": 1}", "[1]", "(a)", "*a", "a[0][1:2]", "f()", "f()[0:1]", "a ? b : c", "make(chan int64)", "x[0:1:2]", "1", "\"s\"", "nil"]
+    for f1 in firsts:
+        for lead in ("", "x = 1\n", "\n\n", "# c\n  "):
+            tag = lead.encode("unicode_escape").decode()
+            for form in ("%s, b =", "%s, b, c = <- ch", "%s =", "%s, b = ", "var %s, b =", "%s, b, c = <-ch, 1", "if %s { } else { } else { }", "if %s { } else if 1 { } else { } else { }", "%s, b +=", "%s++ =", "%s <- "):
+                out.append({"id": "acterr|%s|%s|%s" % (f1, form, tag), "src": lead + form % f1})
     ids = set()
     uniq = []
     for o in out:
